@@ -429,6 +429,12 @@ class Ref:
             elif op in ("remove", "removeref") and n == 2:
                 if a[1] >= len(x): return False
                 del x[a[1]]
+            elif op == "append2" and n == 3:
+                x.append(self.fresh(a[1] + a[2]))
+            elif op == "removechain" and n == 3:      # remove(x_i) whose destructor removes x_j: exactly these two go
+                if a[1] >= len(x) or a[2] >= len(x) or a[1] == a[2]: return False
+                for j in sorted((a[1], a[2]), reverse=True):
+                    del x[j]
             else:
                 return False
         # -- PoolMap
@@ -441,6 +447,15 @@ class Ref:
             elif op in ("removeat", "removeref") and n == 2:
                 if a[1] >= len(x): return False
                 del x[a[1]]
+            elif (op == "prepend" and n == 3) or (op == "insert" and n == 4):
+                pos, key, val = (0, a[1], a[2]) if op == "prepend" else (a[1], a[2], a[3])
+                if pos > len(x): return False
+                if all(e[0] != key for e in x):
+                    x.insert(pos, self.fresh(key, val))
+            elif op == "removechain" and n == 3:
+                if a[1] >= len(x) or a[2] >= len(x) or a[1] == a[2]: return False
+                for j in sorted((a[1], a[2]), reverse=True):
+                    del x[j]
             else:
                 return False
         else:
@@ -551,11 +566,15 @@ def gen_history(rng, length, kinds=KINDS, keys=6, alias=0.3, grow=0.55):
             ws = [5, 2, 2, 1, 1, 2, 1, 0.5, 1, 0.3] if gr else [1, 0, 0, 0, 0, 4, 2, 1, 4, 0]
             op = rng.choices(cs, ws)[0]
         elif k == "P":
-            cs = [f"P.append {v} {nv()}", f"P.append0 {v}", f"P.remove {v} {i}", f"P.removeref {v} {i}"]
-            op = rng.choices(cs, [6, 1, 2, 2] if gr else [1, 0, 4, 4])[0]
+            j = rng.randrange(n) if n else 0
+            cs = [f"P.append {v} {nv()}", f"P.append0 {v}", f"P.remove {v} {i}", f"P.removeref {v} {i}", f"P.append2 {v} {nv()} {rng.randrange(3)}",
+                  f"P.removechain {v} {i} {j if j != i else (i + 1) % max(n, 1)}"]
+            op = rng.choices(cs, [6, 1, 2, 2, 1, 1.5] if gr else [1, 0, 4, 4, 0, 3])[0]
         else:
-            cs = [f"Q.append {v} {key} {nv()}", f"Q.remove {v} {key}", f"Q.removeat {v} {i}", f"Q.removeref {v} {i}", f"Q.newcap {v} {rng.randrange(5)}"]
-            op = rng.choices(cs, [6, 2, 1, 1, 0.2] if gr else [1, 4, 3, 3, 0])[0]
+            j = rng.randrange(n) if n else 0
+            cs = [f"Q.append {v} {key} {nv()}", f"Q.remove {v} {key}", f"Q.removeat {v} {i}", f"Q.removeref {v} {i}", f"Q.newcap {v} {rng.randrange(5)}",
+                  f"Q.prepend {v} {key} {nv()}", f"Q.insert {v} {p} {key} {nv()}", f"Q.removechain {v} {i} {j if j != i else (i + 1) % max(n, 1)}"]
+            op = rng.choices(cs, [5, 2, 1, 1, 0.2, 2, 2, 1.5] if gr else [1, 4, 3, 3, 0, 0, 0, 3])[0]
         if r.apply(op, False) == "bad-op" and rng.random() < 0.9:
             continue            # keep a few rejected lines
         h.append(op)
@@ -578,9 +597,9 @@ SMALL = {
           "H.removeat 0 0", "H.removeat 0 1", "H.set 0 0 7", "H.clear 0", "H.swap 0 1", "H.assign 0 0", "H.assign 0 1", "H.assign 1 0", "H.copy 1 0", "H.new 0", "H.newcap 0 1"],
     "S": ["S.removefront 0", "S.removeback 0", "S.append 0 2", "S.append 0 1", "S.prepend 0 3", "S.insert 0 1 4", "S.appendref 0 0", "S.appendset 0 0", "S.appendset 0 1", "S.appendset 1 0", "S.remove 0 2",
           "S.removeref 0 0", "S.removeset 0 0", "S.removeset 0 1", "S.removeat 0 1", "S.clear 0", "S.swap 0 1", "S.assign 0 0", "S.assign 1 0", "S.copy 1 0", "S.new 0"],
-    "P": ["P.removefront 0", "P.removeback 0", "P.append 0 1", "P.append 0 2", "P.append0 0", "P.remove 0 0", "P.remove 0 1", "P.removeref 0 0", "P.removeref 0 2", "P.clear 0", "P.swap 0 1", "P.append 1 3", "P.new 0"],
+    "P": ["P.removefront 0", "P.removeback 0", "P.append 0 1", "P.append 0 2", "P.append0 0", "P.remove 0 0", "P.remove 0 1", "P.removeref 0 0", "P.removeref 0 2", "P.clear 0", "P.swap 0 1", "P.append 1 3", "P.new 0", "P.append2 0 1 2", "P.removechain 0 0 1", "P.removechain 0 1 0", "P.removechain 0 0 2"],
     "Q": ["Q.removefront 0", "Q.removeback 0", "Q.append 0 2 1", "Q.append 0 1 2", "Q.append 0 2 3", "Q.append 0 3 4", "Q.remove 0 2", "Q.removeat 0 0", "Q.removeref 0 1", "Q.clear 0", "Q.swap 0 1", "Q.append 1 5 5",
-          "Q.new 0", "Q.newcap 0 1"],
+          "Q.new 0", "Q.newcap 0 1", "Q.prepend 0 4 6", "Q.insert 0 1 5 7", "Q.removechain 0 0 1", "Q.removechain 0 1 0", "Q.removechain 0 2 0"],
 }
 
 
@@ -606,6 +625,88 @@ def array_boundaries(maxn):
                 tails += [[f"A.appendptr 0 {i} {c}"] for c in range(0, n - i + 1)]
             hs += [build + t + ["destroyall"] for t in tails]
     return hs
+
+
+def _hins(k, how, v, pos, key, val):
+    """one insertion line of a hash container: how = append | prepend | insert"""
+    if k == "S":
+        return f"S.{how} {v} {key}" if how != "insert" else f"S.insert {v} {pos} {key}"
+    return f"{k}.{how} {v} {key} {val}" if how != "insert" else f"{k}.insert {v} {pos} {key} {val}"
+
+
+def collision_exhaustive():
+    """bucket chains: two or three keys of ONE bucket (explicit capacity c, keys congruent mod c) linked in every order
+    (append / prepend / positional insert, so that chain order and iteration order disagree), then every operation that
+    tears items out of the chains in bulk or singly (clear, assignment, swap between tables of different bucket counts,
+    remove), then re-use of the same bucket (insert / remove / overwrite of the same keys)"""
+    hs = []
+    for k in "HSQ":
+        for c in (1, 2):
+            a, b, d = 1, 1 + c, 1 + 2 * c                       # one bucket
+            builds = []
+            for h1 in ("append", "prepend"):
+                for h2 in ("append", "prepend", "insert"):
+                    builds.append([_hins(k, "append", 0, 0, a, 10), _hins(k, h1, 0, 0, b, 20), _hins(k, h2, 0, 1, d, 30)])
+                    builds.append([_hins(k, h1, 0, 0, a, 10), _hins(k, h2, 0, 1, b, 20)])
+            tears = [[f"{k}.clear 0"], [f"{k}.removeat 0 0"], [f"{k}.removeback 0"], [f"{k}.remove 0 {b}"], [f"{k}.swap 0 1"],
+                     [f"{k}.swap 0 1", _hins(k, "append", 1, 0, b + c, 40), f"{k}.swap 1 0"]]
+            if k != "Q":
+                tears += [[f"{k}.assign 0 1"], [_hins(k, "append", 1, 0, b, 50), f"{k}.assign 0 1"], [f"{k}.copy 1 0", f"{k}.clear 0", f"{k}.assign 0 1"]]
+            else:
+                tears += [[f"Q.removechain 0 0 1"], [f"Q.removechain 0 1 0"]]
+            reuse = [[_hins(k, "append", 0, 0, a, 60)], [_hins(k, "append", 0, 0, b, 61), _hins(k, "prepend", 0, 0, a, 62)],
+                     [f"{k}.remove 0 {a}", f"{k}.remove 0 {b}"], [_hins(k, "append", 0, 0, d, 63), f"{k}.clear 0", _hins(k, "append", 0, 0, d, 64)]]
+            for bu in builds:
+                for t in tears:
+                    for r in reuse:
+                        hs.append([f"{k}.newcap 0 {c}"] + bu + t + r + ["destroyall"])
+    return hs
+
+
+def collision_history(rng, length):
+    """random history on the hash containers with small explicit bucket counts (different for the two variables), few keys
+    (so most insertions collide), a high share of prepend / positional inserts, and clear / assign / swap / copy between
+    phases of re-use of the same keys"""
+    k = rng.choice("HHSSQ")
+    r = Ref()
+    caps = [rng.choice([1, 1, 2, 3]), rng.choice([1, 2, 3, 5, None])]
+    h = [f"{k}.newcap {v} {c}" for v, c in enumerate(caps) if c is not None]
+    for l in h:
+        r.apply(l, False)
+    val = 200
+    while len(h) < length:
+        v = rng.randrange(2) if rng.random() < 0.35 else 0
+        n = r.size(k, v)
+        key = rng.randrange(7)
+        val += 1
+        z = rng.random()
+        if z < 0.45:
+            op = _hins(k, rng.choice(["append", "prepend", "prepend", "insert"]), v, rng.randrange(n + 1), key, val)
+        elif z < 0.55:
+            op = f"{k}.clear {v}"
+        elif z < 0.65:
+            op = f"{k}.swap {v} {1 - v}"
+        elif z < 0.73 and k != "Q":
+            op = f"{k}.assign {v} {1 - v}"
+        elif z < 0.76 and k != "Q":
+            op = f"{k}.copy {v} {1 - v}"
+        elif z < 0.86:
+            op = f"{k}.remove {v} {key}"
+        elif z < 0.93 and n:
+            op = f"{k}.removeat {v} {rng.randrange(n)}"
+        elif k == "S":
+            op = rng.choice([f"S.appendset {v} {rng.randrange(2)}", f"S.removeset {v} {rng.randrange(2)}"])
+        elif k == "Q" and n > 1:
+            i = rng.randrange(n)
+            op = f"Q.removechain {v} {i} {(i + rng.randrange(1, n)) % n}"
+        elif k == "H" and n:
+            op = f"H.appendref {v} {key} {rng.randrange(n)}"
+        else:
+            continue
+        if r.apply(op, False) == "bad-op":
+            continue
+        h.append(op)
+    return h + ["destroyall"]
 
 
 def long_history(rng, length, kinds):
@@ -636,9 +737,10 @@ def long_history(rng, length, kinds):
         elif k == "S":
             op = f"S.append {v} {key}" if grow else rng.choice([f"S.remove {v} {key}", f"S.removeat {v} {i}"])
         elif k == "P":
-            op = f"P.append {v} {val}" if grow else rng.choice([f"P.remove {v} {i}", f"P.removeref {v} {i}"])
+            op = f"P.append {v} {val}" if grow else rng.choice([f"P.remove {v} {i}", f"P.removeref {v} {i}", f"P.removechain {v} {i} {(i + rng.choice([1, n - 1, rng.randrange(1, max(n, 2))])) % max(n, 1)}"])
         else:
-            op = f"Q.append {v} {key} {val}" if grow else rng.choice([f"Q.remove {v} {key}", f"Q.removeat {v} {i}", f"Q.removeref {v} {i}"])
+            op = (rng.choice([f"Q.append {v} {key} {val}", f"Q.append {v} {key} {val}", f"Q.prepend {v} {key} {val}", f"Q.insert {v} {rng.randrange(n + 1)} {key} {val}"]) if grow else
+                  rng.choice([f"Q.remove {v} {key}", f"Q.removeat {v} {i}", f"Q.removeref {v} {i}", f"Q.removechain {v} {i} {(i + rng.choice([1, n - 1, rng.randrange(1, max(n, 2))])) % max(n, 1)}"]))
         if r.apply(op, False) == "bad-op":
             continue
         rest.append(op)
@@ -696,13 +798,15 @@ def histories_for(ctx):
     deeper = exhaustive(depth + 1, kinds if quick else "".join(k for k in kinds if len(SMALL[k]) > 12))
     rng.shuffle(deeper)
     ex += deeper[:nsample]
-    parts = [("corpus", hs), ("exhaustive", ex)]
+    parts = [("corpus", hs), ("exhaustive", ex), ("collisions", collision_exhaustive() + [collision_history(rng, rng.choice([8, 14, 25])) for _ in range(1500 if quick else 30000)])]
     if c05:
         longs = [long_history(rng, 300, rng.choice(["L", "M", "U", "H", "S", "P", "Q", "LMUHSPQ", "PQ", "HS", "MU"])) for _ in range(60 if quick else 1500)]
         parts += [("long", longs), ("clients", client_patterns(rng))]
         rnd = [gen_history(rng, rng.choice([8, 15, 30]), kinds, alias=0.2) for _ in range(3000 if quick else 60000)]
     else:
         parts.append(("array-boundaries", array_boundaries(8 if quick else 12)))
+        # deep trees: every shape of two-children removal / rebalancing of Map and MultiMap also under the C04 ledger
+        parts.append(("long", [long_history(rng, 200, rng.choice(["M", "U", "MU", "M", "U", "HSQ", "LP"])) for _ in range(40 if quick else 800)]))
         rnd = [gen_history(rng, rng.choice([6, 12, 25, 40]), rng.choice([KINDS, KINDS, "A", "L", "AL", "MU", "HS", "PQ"]),
                            alias=rng.choice([0.2, 0.5])) for _ in range(5000 if quick else 100000)]
     parts.append(("random", rnd))
@@ -712,7 +816,9 @@ def histories_for(ctx):
                        f"incl. every alias op){' + a seeded sample of ' + str(nsample) + ' of length ' + str(depth + 1)} = {len(ex)} histories"
                        + ("" if c05 else f" + Array alias ops (appendref/resizeref/appendptr/appendarr self/assign self) at every size 0..{8 if quick else 12} x 4 ways of reaching the capacity")
                        + f" + {len(rnd)} structured random histories over 2 variables per kind"
-                       + (f" + {len(parts[2][1])} long histories (300 ops, long-lived elements) + {len(parts[3][1])} scripted client patterns (Server pools, Future contexts, Callback slots)" if c05 else "")
+                       + f" + {len(dict(parts)['collisions'])} bucket-chain histories on HashMap/HashSet/PoolMap (explicit bucket counts 1..5, different for the two variables, keys of one bucket linked by append/prepend/positional insert in every order, then clear/assign/swap/copy/remove, then re-use of the same keys: an exhaustive family + random ones)"
+                       + f" + {len(dict(parts)['long'])} long histories ({'300' if c05 else '200'} ops, long-lived elements, deep trees)"
+                       + (f" + {len(dict(parts)['clients'])} scripted client patterns (Server pools, Future contexts, Callback slots)" if c05 else "")
                        + "; every history ends with destroyall (leak check); distinct_nontrivial = distinct (op-name set, final contents) among histories with >= 3 ops and non-empty final contents")
     ctx.cov["exhaustive"] = False
     ctx.cov["exhaustive_scope"] = f"length<={depth} per kind over SMALL[kind]: {len(ex)} histories"
